@@ -29,7 +29,8 @@ theorem canon16 {s : List Nat} {s0 s1 s2 s3 s4 s5 s6 s7 s8 s9 s10 s11 s12 s13 s1
 macro "instr_tac" ops:ident : tactic => `(tactic| (
   intro vm hl
   obtain ⟨s0, s1, s2, s3, s4, s5, s6, s7, s8, s9, s10, s11, s12, s13, s14, s15, rest, hs⟩ := exists16 hl
-  simp [stackRun, runOps, $ops:ident, Vm.step, Vm.stepCore, Vm.setStack, Vm.dup, Vm.movup, Vm.movdn,
+  simp [stackRun_eq, runOps_cons, runOps_nil, step_eq_map, Except.map_ok', Except.map_error',
+    Except.bind_ok', Except.bind_error', Except.map_ite, Except.bind_ite, $ops:ident, Vm.stepCore, Vm.setStack, Vm.dup, Vm.movup, Vm.movdn,
     insertAt, hs, Spec.sem, Refines, pad16_eq, Spec.failWith, Spec.failAny, Spec.undef, fadd_fneg,
     Spec.b2n]
   all_goals (try (split_ifs <;> simp_all))
@@ -41,7 +42,8 @@ macro "instr_tac_canon" ops:ident : tactic => `(tactic| (
   intro vm hl hP
   obtain ⟨s0, s1, s2, s3, s4, s5, s6, s7, s8, s9, s10, s11, s12, s13, s14, s15, rest, hs⟩ := exists16 hl
   obtain ⟨c0, c1, c2, c3, c4, c5, c6, c7, c8, c9, c10, c11, c12, c13, c14, c15⟩ := canon16 hP hs
-  simp [stackRun, runOps, $ops:ident, Vm.step, Vm.stepCore, Vm.setStack, Vm.dup, Vm.movup, Vm.movdn,
+  simp [stackRun_eq, runOps_cons, runOps_nil, step_eq_map, Except.map_ok', Except.map_error',
+    Except.bind_ok', Except.bind_error', Except.map_ite, Except.bind_ite, $ops:ident, Vm.stepCore, Vm.setStack, Vm.dup, Vm.movup, Vm.movdn,
     insertAt, hs, Spec.sem, Refines, pad16_eq, Spec.failWith, Spec.failAny, Spec.undef, fadd_fneg,
     Spec.b2n, Spec.isU32s]
   all_goals (try (split_ifs <;> simp_all))
